@@ -521,9 +521,34 @@ def _forwarder_rules(ctx):
         return
     pf = result_flow(f, "Client::send")
     after = b.reachable_after(sends[0].bb)
-    kept = [(i, st) for i, k, st in b.stmts() if i in after and st["k"] == "assign" and st["rv"]["k"] == "agg" and st["rv"].get("variant") == "Ready" and (st["rv"].get("adt") or "").endswith("ClientState")]
+    # the client the payload was sent on: wherever it is put back into the forwarder's state afterwards (an enum variant
+    # carrying it, `Some(client)` stored in a field, ...) is a site that keeps the connection
+    CL = None
+    a0 = sends[0].args[0].get("move") or sends[0].args[0].get("copy") or {}
+    if a0.get("l") is not None and not a0.get("pr"):
+        dd = [d for d in b.defs().get(a0["l"], []) if d[0] == "assign"]
+        if len(dd) == 1 and dd[0][3]["rv"]["k"] == "ref" and not [e for e in (dd[0][3]["rv"]["p"].get("pr") or []) if e != "*"]:
+            CL = dd[0][3]["rv"]["p"]["l"]
+    if CL is None:
+        chk.unrecognised("C10.d", f"{f.path} [connection kept only after a successful send]", "cannot see which variable holds the client that send() is called on", f.loc())
+        return
+    alias = {CL}
+    grew = True
+    while grew:
+        grew = False
+        for i, k, st in b.stmts():
+            if st["k"] == "assign" and not st["p"].get("pr") and st["rv"]["k"] == "use":
+                mv = st["rv"]["a"].get("move")
+                if mv and not mv.get("pr") and mv["l"] in alias and st["p"]["l"] not in alias:
+                    alias.add(st["p"]["l"])
+                    grew = True
+    kept = [(i, st) for i, k, st in b.stmts() if i in after and st["k"] == "assign" and st["rv"]["k"] == "agg" and any((o.get("move") or {}).get("l") in alias and not (o.get("move") or {}).get("pr") for o in st["rv"].get("ops") or [])]
     bad = [(i, st) for i, st in kept if pf.at(i) != "P"]
-    chk.ob("C10.d", f"{f.path} [connection kept only after a successful send]", bool(kept) and not bad, f"{len(kept)} site(s) re-establish Ready after the send, each on its Ok edge" if kept and not bad else "the connection is kept (state Ready) on a path where send() did not return Ok: after a partial write on the stream transport the next frame is appended behind a truncated one and the agent stays misaligned", f"{f.file}:{bad[0][1].get('ln')}" if bad else f.loc(), nontrivial=False)
+    if not kept:
+        # the client is never put back: every payload goes out on a fresh connection (nothing to decide)
+        chk.ob("C10.d", f"{f.path} [connection kept only after a successful send]", True, "the client is not kept across sends at all", f.loc(), nontrivial=False)
+        return
+    chk.ob("C10.d", f"{f.path} [connection kept only after a successful send]", bool(kept) and not bad, f"{len(kept)} site(s) put the client back after the send, each on its Ok edge" if kept and not bad else "the connection is kept (the client is stored back) on a path where send() did not return Ok: after a partial write on the stream transport the next frame is appended behind a truncated one and the agent stays misaligned", f"{f.file}:{bad[0][1].get('ln')}" if bad else f.loc(), nontrivial=False)
 
 
 def _imports(ctx):
